@@ -220,12 +220,17 @@ func (m *Meta) Equals(other *Meta) bool {
 }
 
 func (m *Meta) String() string {
-	sort.Strings(m.Keys)
+	// sort a copy: printing a Meta (possibly shared between goroutines through
+	// an immutable token) must not reorder it in place
+	keys := make([]string, len(m.Keys))
+	copy(keys, m.Keys)
+	sort.Strings(keys)
 
 	buf := strings.Builder{}
 	buf.WriteString("{")
 
-	for key, node := range m.Values {
+	for _, key := range keys {
+		node := m.Values[key]
 		buf.WriteString("\n\t")
 		buf.WriteString(key)
 		buf.WriteString(": ")
